@@ -54,7 +54,14 @@ func NewGsfaReader(indexRootDir string) (*GsfaReader, error) {
 		index.ll = ll
 	}
 	{
-		man, err := manifest.NewManifest(filepath.Join(indexRootDir, "manifest"), indexmeta.Meta{})
+		// NewManifest initialises a missing or empty file; a reader must not take such a file for an index's manifest.
+		manifestPath := filepath.Join(indexRootDir, "manifest")
+		if st, err := os.Stat(manifestPath); err != nil {
+			return nil, fmt.Errorf("error while opening manifest: %w", err)
+		} else if st.Size() == 0 {
+			return nil, fmt.Errorf("manifest %q is empty", manifestPath)
+		}
+		man, err := manifest.NewManifest(manifestPath, indexmeta.Meta{})
 		if err != nil {
 			return nil, err
 		}
